@@ -96,20 +96,34 @@ def run(ctx):
         distinct.add(("cable", r, L, ra, g))
         try:
             errs, errs_tr = [], []
+            # the same cable as ONE branch or cut into branches of unequal length with unequal
+            # compartment lengths at the branch points (every second case)
+            pieces = [(1.0, 4)] if ci % 2 == 0 else rng.choice([[(0.5, 2), (1 / 6, 1), (1 / 3, 2)], [(0.75, 2), (0.25, 2)], [(0.25, 2), (0.5, 1), (0.25, 3)]])
+            case["pieces_fraction_ncomp"] = pieces
             for k in range(3):
-                n = 4 * 2 ** k
                 with quiet():
                     comp = jx.Compartment()
-                    br = jx.Branch([comp] * n)
+                    if len(pieces) == 1:
+                        n = 4 * 2 ** k
+                        br = jx.Branch([comp] * n)
+                        br.set("length", L / n)
+                        l_first = l_last = L / n
+                    else:
+                        ns = [m * 2 ** k for _, m in pieces]
+                        br = jx.Cell([jx.Branch([comp] * m) for m in ns], parents=list(range(-1, len(pieces) - 1)))
+                        for bi, ((frac, _), m) in enumerate(zip(pieces, ns)):
+                            br.branch(bi).set("length", L * frac / m)
+                        n = sum(ns)
+                        l_first, l_last = L * pieces[0][0] / ns[0], L * pieces[-1][0] / ns[-1]
                     br.insert(Leak())
-                    br.set("radius", r); br.set("length", L / n); br.set("axial_resistivity", ra)
+                    br.set("radius", r); br.set("axial_resistivity", ra)
                     br.set("Leak_gLeak", g); br.set("Leak_eLeak", E); br.set("v", E)
-                    br.comp(0).stimulate(jnp.asarray([I] * 4))
+                    br.select(nodes=[0]).stimulate(jnp.asarray([I] * 4))
                     br.record("v")
                     out = np.asarray(jx.integrate(br, delta_t=1e8, voltage_solver=rng.choice(["jaxley.thomas", "jaxley.stone", "jax.sparse"])))
                 evals += 1
-                x0 = (L / n / 2) * 1e-4
-                xe = Lc - x0
+                x0 = (l_first / 2) * 1e-4
+                xe = Lc - (l_last / 2) * 1e-4
                 Rin = Rinf * math.cosh(x0 / lam) * math.cosh((Lc - x0) / lam) / math.sinh(Lc / lam) * 1e-6      # MOhm
                 Rtr = Rinf * math.cosh(x0 / lam) * math.cosh((Lc - xe) / lam) / math.sinh(Lc / lam) * 1e-6
                 got_in = (out[0, -1] - E) / I
@@ -132,7 +146,7 @@ def run(ctx):
     for v in viol:
         v.setdefault("finding_class", None)
     return {"evaluations": evals, "distinct_nontrivial": len(distinct),
-            "rule": "A: single passive compartments with random geometry / g / cm / I: final voltage against the scheme's closed form (exact to round-off) and against the analytic RC relaxation on dt ladders (observed orders), steady state with dt=1e7; B: uniform sealed cables (L = 0.3..3 lambda) with ncomp = 4, 8, 16: steady-state input and transfer resistance against cable theory in physical units, observed spatial order; distinct by parameter set",
+            "rule": "A: single passive compartments with random geometry / g / cm / I: final voltage against the scheme's closed form (exact to round-off) and against the analytic RC relaxation on dt ladders (observed orders), steady state with dt=1e7; B: uniform sealed cables (L = 0.3..3 lambda), as one branch with ncomp = 4, 8, 16 or cut into 2-3 branches of unequal length and unequal compartment length, refined by 2 and 4: steady-state input and transfer resistance against cable theory in physical units, observed spatial order; distinct by parameter set",
             "samples": samples, "violations": viol[:20]}
 
 
